@@ -44,6 +44,9 @@ PROPS = {
     'C17': P(flags=[], lang=False, stages=[], theorems=('C17.v', None), n=(600, 20000), runner='c17'),
 }
 
+# the fields of a case that a replay needs (call-order variants included)
+CASE_KEYS = ('tcs', 'f', 'mr', 'ms', 'thr_first', 'esc_twice')
+
 # number of dense small-alphabet cases (quick, thorough) per property
 DENSE = {'C01': (6000, 120000), 'C02': (8000, 150000), 'C03': (4000, 60000), 'C05': (6000, 120000), 'C08': (6000, 120000),
          'C16': (8000, 150000), 'C07': (4000, 60000), 'C13': (3000, 40000), 'C06': (3000, 40000)}
@@ -172,6 +175,9 @@ def select_cases(pid, spec, tier, seed):
         c['id'] = i
         c['lang'] = bool(spec.get('lang'))
         c['lang_anchor'] = (pid == 'C08')
+        # the escaping setter takes a value: the last call decides (a third of C11's cases call it with `true` first)
+        if pid == 'C11' and i % 3 == 0 and 'e' in flags_of(c):
+            c['esc_twice'] = True
     return allc, len(corpus)
 
 # ------------------------------------------------------------------------------------------
@@ -570,7 +576,7 @@ def correspondence(pid, spec, res, st, allc, impl=None):
         for s, a, b in diffs:
             stage_diffs[s] = stage_diffs.get(s, 0) + 1
             if first_diff is None:
-                first_diff = {'stage': s, 'case': {k: c[k] for k in ('tcs', 'f', 'mr', 'ms') if k in c}, 'implementation': a, 'model': b}
+                first_diff = {'stage': s, 'case': {k: c[k] for k in CASE_KEYS if k in c}, 'implementation': a, 'model': b}
     if first_diff:
         broken.append('correspondence broken at stage(s) %s (first: stage %s)' % (sorted(stage_diffs), first_diff['stage']))
     res['first_diff'] = first_diff
@@ -895,19 +901,19 @@ def run_property(pid, tier, seed):
         def same_kind(cc, rr, kind=kind):
             return [x for x in fails_of(cc, rr) if x['kind'] == kind and not known_for(pid, cc, rr, x, st)]
         if kind in ('cli-anchor', 'py-threshold'):
-            res['violations'].append({'case': {k: v for k, v in c.items() if k in ('tcs', 'f', 'mr', 'ms', 'args')}, 'original_case': {k: v for k, v in c.items() if k in ('tcs', 'f', 'mr', 'ms')},
+            res['violations'].append({'case': {k: v for k, v in c.items() if k in ('tcs', 'f', 'mr', 'ms', 'args')}, 'original_case': {k: v for k, v in c.items() if k in CASE_KEYS},
                                       'failure': fl, 'output': None})
             continue
         small = shrink(pid, c, spec, same_kind)
-        small = {k: v for k, v in small.items() if k in ('tcs', 'f', 'mr', 'ms')}
+        small = {k: v for k, v in small.items() if k in CASE_KEYS}
         sc_ = dict(small); sc_['id'] = 0; sc_['lang'] = bool(spec.get('lang'))
         sr = runner.run_impl([sc_], threads=1).get(0, {})
         sf = same_kind(sc_, sr)
         if sf:
             fl_small, r_small = sf[0], sr
         else:
-            small = {k: v for k, v in c.items() if k in ('tcs', 'f', 'mr', 'ms')}; fl_small, r_small = fl, r
-        res['violations'].append({'case': small, 'original_case': {k: v for k, v in c.items() if k in ('tcs', 'f', 'mr', 'ms')}, 'failure': fl_small,
+            small = {k: v for k, v in c.items() if k in CASE_KEYS}; fl_small, r_small = fl, r
+        res['violations'].append({'case': small, 'original_case': {k: v for k, v in c.items() if k in CASE_KEYS}, 'failure': fl_small,
                                   'output': out_str(r_small) if r_small.get('out') is not None else None})
     res['unknown_failures'] = len(unknown)
     # known findings: replay the witnesses
